@@ -259,9 +259,12 @@ def run(ctx):
             ns = sorted(rng.sample(names, rng.randrange(1, 5)), key=lambda x: (x.split('.')[0], x.split('.')[1] != 'mli'))
             return [(nm, rng.choice(small) if rng.random() < 0.7 else rng.choice(pairs)[rng.randrange(2)]) for nm in ns]
         yours, theirs = files(), files()
+        if k == 0:
+            yours, theirs = [('alpha.ml', 'a\n')], [('alpha.ml', 'b\n')]
         if rng.random() < 0.3:
             theirs = [(nm, t if rng.random() < 0.5 else dict(yours).get(nm, t)) for nm, t in theirs]
         ctxsize = rng.choice([None, 0, 1, 3])
+        psize = (0, 0) if k == 0 else (len(theirs), sum(len(t) for _, t in yours + theirs))
         p1, p2 = Protocol(files_to_proto(yours)), Protocol(files_to_proto(theirs))
         want = list(p2)
         desc = {'yours': yours, 'theirs': theirs, 'context': ctxsize}
@@ -274,13 +277,17 @@ def run(ctx):
             res = p1.patch(d)
             out = 'ok ' + ' '.join(f'{hx(nm)}:{hx(t)}' for nm, t in d) + ' | ' + ' '.join(f'{hx(nm)}:{hx(t)}' for nm, t in res)
             if list(res) != want or res.hash() != p2.hash():
-                report('yours.patch(yours.diff(theirs)) != theirs', (len(theirs), sum(len(t) for _, t in yours + theirs)),
+                report('yours.patch(yours.diff(theirs)) != theirs', psize,
                        f'yours={yours!r} theirs={theirs!r}: patched files {list(res)!r}', dict(desc, got=list(res)))
         except TypeError as e:
             out = 'error type-error'
-            report('Protocol.diff/patch reject a Protocol argument', (len(theirs), sum(len(t) for _, t in yours + theirs)),
+            report('Protocol.diff/patch reject a Protocol argument', psize,
                    f'Protocol(files_to_proto({yours!r})).diff(Protocol(files_to_proto({theirs!r}))) raises TypeError: {e} '
                    '(and so does .patch() on the Protocol that diff() returns)', dict(desc, got=f'TypeError: {e}'))
+        except Exception as e:  # noqa
+            out = f'error other:{type(e).__name__}'
+            report('yours.patch(yours.diff(theirs)) raises', psize,
+                   f'yours={yours!r} theirs={theirs!r}: {type(e).__name__}: {str(e)[:120]}', dict(desc, got=f'{type(e).__name__}: {e}'))
         scripts = []
         ok = True
         for nm, t in want:
@@ -293,15 +300,20 @@ def run(ctx):
                                   + [x for nm, s in scripts for x in [';', 'T', hx(nm)] + script_tokens(s)]))
             post.append(('protocol', desc, out))
         # (2) through callable stand-ins (works on every tree): the file-wise logic itself
-        res2 = p1.patch(Query(p1.diff(Query(p2), **kw)))
-        if list(res2) != want or res2.hash() != p2.hash():
-            report('yours.patch(yours.diff(theirs)) != theirs', (len(theirs), sum(len(t) for _, t in yours + theirs)),
-                   f'yours={yours!r} theirs={theirs!r}: patched files {list(res2)!r} (arguments wrapped in callables)', dict(desc, got=list(res2)))
+        try:
+            res2 = p1.patch(Query(p1.diff(Query(p2), **kw)))
+            if list(res2) != want or res2.hash() != p2.hash():
+                report('yours.patch(yours.diff(theirs)) != theirs', psize,
+                       f'yours={yours!r} theirs={theirs!r}: patched files {list(res2)!r} (arguments wrapped in callables)', dict(desc, got=list(res2)))
+        except Exception as e:  # noqa
+            report('yours.patch(yours.diff(theirs)) raises', psize,
+                   f'yours={yours!r} theirs={theirs!r}: {type(e).__name__}: {str(e)[:120]} (arguments wrapped in callables)',
+                   dict(desc, got=f'{type(e).__name__}: {e}'))
 
     model = ctx.model(lines)
     if model is not None:
         for (stream, desc, impl), m in zip(post, model):
-            if impl != m:
+            if impl != m and m != 'error unrecognised-source':   # (the translator obligation already reports an unrecognised source)
                 ctx.mismatch(stream, desc, impl[:400], m[:400])
     for key, (_, what, rep) in sorted(worst.items(), key=lambda kv: kv[1][0]):
         ctx.violation(key, what, rep)
